@@ -22,8 +22,13 @@ const SCALARS_PER_PLAN: u64 = 64;
 /// long lines of multi-unit characters at every small offset: a multi-unit character straddles every internal block
 /// boundary (any power-of-two index) for at least one offset
 const STRADDLE_PLANS: u64 = 8 * 5 + SHORT_TEXTS;
-/// every text of length <= 4 over {NUL, 'o', '[', LF, U+00E9, U+4E0A} in front of a small file, in the four encodings
-const SHORT_TEXTS: u64 = 1 + 6 + 36 + 216 + 1296;
+/// every text of length <= 4 over {NUL, 'o', '[', LF, U+00E9, U+4E0A, CR, U+0D0A} in front of a small file, in the four
+/// encodings (U+0D0A / U+4E0A: code units whose bytes are CR / LF bytes)
+const SHORT_TEXTS: u64 = 1 + 8 + 64 + 512 + 4096;
+/// every sequence of 1..=5 code units over {high, low, 'a', highest high, lowest low, LF} inside a metadata value, as
+/// UTF-16LE and UTF-16BE: the surrogate pairing grammar, enumerated
+const UNIT_SEQS: u64 = (6 + 36 + 216 + 1296 + 7776) * 2;
+const UNIT_ALPHA: [u16; 6] = [0xD83D, 0xDE00, 0x0061, 0xDBFF, 0xDC00, 0x000A];
 const N_SCALARS: u64 = 0x110000;
 
 impl C10 {
@@ -90,6 +95,7 @@ impl Scenario for C10 {
     fn total_runs(&self, tier: Tier) -> u64 {
         self.sweep_plans()
             + self.trunc_plans(tier)
+            + UNIT_SEQS
             + match tier {
                 Tier::Quick => 60_000,
                 Tier::Thorough => 4_000_000,
@@ -99,10 +105,10 @@ impl Scenario for C10 {
         let sw = self.sweep_plans();
         if idx >= 40 && idx < STRADDLE_PLANS {
             let mut k = idx - 40;
-            let alpha = ['\0', 'o', '[', '\n', '\u{E9}', '\u{4E0A}'];
+            let alpha = ['\0', 'o', '[', '\n', '\u{E9}', '\u{4E0A}', '\r', '\u{D0A}'];
             let mut len = 0u32;
             loop {
-                let c = 6u64.pow(len);
+                let c = 8u64.pow(len);
                 if k < c {
                     break;
                 }
@@ -111,8 +117,8 @@ impl Scenario for C10 {
             }
             let mut t = String::new();
             for _ in 0..len {
-                t.push(alpha[(k % 6) as usize]);
-                k /= 6;
+                t.push(alpha[(k % 8) as usize]);
+                k /= 8;
             }
             t.push_str("su file format v9\n[Metadata]\nTitle:t\n");
             let mut p = Plan::new("C10", "equiv", seed, idx);
@@ -162,6 +168,36 @@ impl Scenario for C10 {
             p.note = format!("{} as {} cut at {}", self.corpus.files[f].0, enc.name(), j / 2);
             return p;
         }
+        if idx < sw + tr + UNIT_SEQS {
+            let i = idx - sw - tr;
+            let le = i % 2 == 0;
+            let mut k = i / 2;
+            let mut len = 1u32;
+            loop {
+                let c = 6u64.pow(len);
+                if k < c {
+                    break;
+                }
+                k -= c;
+                len += 1;
+            }
+            let mut units: Vec<u16> = "osu file format v14\n[Metadata]\nTitle:x".encode_utf16().collect();
+            for _ in 0..len {
+                units.push(UNIT_ALPHA[(k % 6) as usize]);
+                k /= 6;
+            }
+            units.extend("y\nArtist:z\n".encode_utf16());
+            let mut d: Vec<u8> = if le { vec![0xFF, 0xFE] } else { vec![0xFE, 0xFF] };
+            for u in units {
+                d.extend_from_slice(&if le { u.to_le_bytes() } else { u.to_be_bytes() });
+            }
+            let mut p = Plan::new("C10", "corrupt", seed, idx);
+            p.data = d;
+            p.set("dec", 3);
+            p.faults.push("S6-surrogate-grammar".into());
+            p.note = "unit-sequence".into();
+            return p;
+        }
         let mut rng = Rng::for_run(seed, "C10", idx);
         let text = if rng.chance(1, 2) {
             let f = self.corpus.pick(&mut rng, 100);
@@ -185,6 +221,21 @@ impl Scenario for C10 {
                             let run: String = (0..1 + rng.below(4)).map(|_| *rng.pick(&extra)).collect();
                             t.insert_str(at, &run);
                         }
+                    }
+                }
+            }
+            if rng.chance(1, 6) {
+                // whole lines made of nothing but characters whose code units consist of CR / LF / NUL bytes — before the
+                // version line, between records, or last
+                let only = ["\u{0D0A}", "\u{0A0A}", "\u{0D00}", "\u{0A00}", "\u{0A0D}", "\u{0D0D}", "\u{000D}", "\u{0000}", "\u{000A}"];
+                for _ in 0..1 + rng.below(2) {
+                    let run: String = (0..1 + rng.below(3)).map(|_| *rng.pick(&only)).collect();
+                    let starts: Vec<usize> = std::iter::once(0).chain(t.match_indices('\n').map(|(i, _)| i + 1)).collect();
+                    let at = if rng.chance(1, 2) { 0 } else { *rng.pick(&starts) };
+                    let nl = *rng.pick(&["\n", "\r\n"]);
+                    t.insert_str(at, &format!("{run}{nl}"));
+                    if at == 0 && rng.chance(1, 2) {
+                        t.insert_str(0, nl); // ... after a leading empty line
                     }
                 }
             }
